@@ -6,7 +6,7 @@ from kappadata.datasets.kd_subset import KDSubset
 class PercentFilterWrapper(KDSubset):
     def __init__(self, dataset, from_percent=None, to_percent=None, ceil_from_index=False, ceil_to_index=False):
         self.from_percent = from_percent or 0.
-        self.to_percent = to_percent or 1.
+        self.to_percent = 1. if to_percent is None else to_percent
         assert self.from_percent is None or 0. <= self.from_percent <= 1.
         assert self.to_percent is None or 0. <= self.to_percent <= 1.
         self.ceil_from_index = ceil_from_index
